@@ -72,9 +72,10 @@ Proof.
   destruct (recv_run maxsz present msgs) as [e0|x|j cs0|j e0].
   - right; eexists; reflexivity.
   - left; eexists; reflexivity.
-  - destruct beh as [|k e]; [|destruct (k <? j)%nat]; try destruct (put_ok j); cbn;
+  - destruct beh as [|k e|k]; [|destruct (k <? j)%nat|destruct (k <? j)%nat; [destruct sel|]];
+      try destruct (put_ok j); cbn;
       first [left; eexists; reflexivity|right; eexists; reflexivity].
-  - destruct beh as [|k e']; [|destruct (k <? j)%nat]; cbn; right; eexists; reflexivity.
+  - destruct beh as [|k e'|k]; [|destruct (k <? j)%nat|destruct (k <? j)%nat]; cbn; right; eexists; reflexivity.
 Qed.
 
 Lemma handler_stored_only_ok sel beh perr maxsz present put_ok msgs :
@@ -83,9 +84,10 @@ Lemma handler_stored_only_ok sel beh perr maxsz present put_ok msgs :
 Proof.
   cbv zeta. unfold write_handler.
   destruct (recv_run maxsz present msgs) as [e0|x|j cs0|j e0]; try (cbn; discriminate).
-  - destruct beh as [|k e]; [|destruct (k <? j)%nat]; try destruct (put_ok j) eqn:P; cbn; try discriminate;
+  - destruct beh as [|k e|k]; [|destruct (k <? j)%nat|destruct (k <? j)%nat; [destruct sel|]];
+      try destruct (put_ok j) eqn:P; cbn; try discriminate;
       intros _; exists cs0, j; repeat split; exact P.
-  - destruct beh as [|k e']; [|destruct (k <? j)%nat]; cbn; discriminate.
+  - destruct beh as [|k e'|k]; [|destruct (k <? j)%nat|destruct (k <? j)%nat]; cbn; discriminate.
 Qed.
 
 (* whichever ready channel the select takes, and whether or not Put fails before the end of the
@@ -94,11 +96,25 @@ Definition outcome (o : wout) : option Z * bool :=
   (match w_status o with Ok cs => Some cs | _ => None end, w_stored o).
 
 Lemma select_independent sel sel' beh perr maxsz present put_ok msgs :
+  nil_early_free beh = true ->
   outcome (write_handler sel beh perr maxsz present put_ok msgs) =
   outcome (write_handler sel' beh perr maxsz present put_ok msgs).
 Proof.
-  unfold write_handler. destruct (recv_run maxsz present msgs) as [e0|x|j cs0|j e0]; try reflexivity.
-  destruct beh as [|k e']; [reflexivity|]. destruct (k <? j)%nat; reflexivity.
+  intros NF. unfold write_handler. destruct (recv_run maxsz present msgs) as [e0|x|j cs0|j e0]; try reflexivity;
+  (destruct beh as [|k e'|k]; [reflexivity| |discriminate]); destruct (k <? j)%nat; reflexivity.
+Qed.
+
+(* ... but NOT when Put returns nil before the end of the stream (the empty digest with undecodable
+   zstd data): the same call ends OK or with an internal error depending on the select *)
+Lemma select_dependent_nil_early :
+  exists perr maxsz present put_ok msgs k cs,
+    w_status (write_handler false (PutNilEarly k) perr maxsz present put_ok msgs) = Ok cs /\
+    w_status (write_handler true (PutNilEarly k) perr maxsz present put_ok msgs) = Err EInternal /\
+    put_ok (List.length (consumed msgs)) = false.
+Proof.
+  exists EBadRequest, 100, true, (fun _ => false),
+         [mkMsg ("uploads/u/compressed-blobs/zstd/" ++ emptySha256 ++ "/0") 0 7 true], 0%nat, 7.
+  repeat split; vm_compute; reflexivity.
 Qed.
 
 (* a Put whose reader fails can never accept: then an early failure changes nothing either *)
@@ -119,7 +135,7 @@ Lemma recv_run_first maxsz present m rest :
   match parse_write_resource (m_name m) with
   | Ok (hash, size, cmp) =>
       if size >? maxsz then REarly EBadRequest else
-      if contains present hash size then RExists (if cmp =? cmp_identity then size else -1) else
+      if early_return present hash size then RExists (if cmp =? cmp_identity then size else -1) else
       if negb (m_off m =? 0) then REarly EInternal else
       recv_loop (m_name m) size cmp true 0 0 (m :: rest)
   | Err e => REarly e
@@ -137,20 +153,21 @@ Lemma handler_ok_inv sel beh perr maxsz present put_ok msgs cs :
   w_status o = Ok cs ->
   exists m rest h sz c,
     msgs = m :: rest /\ parse_write_resource (m_name m) = Ok (h, sz, c) /\ sz <= maxsz /\
-    ((contains present h sz = true /\ cs = (if c =? cmp_identity then sz else -1) /\
+    ((early_return present h sz = true /\ cs = (if c =? cmp_identity then sz else -1) /\
       w_put_started o = false /\ w_stored o = false)
      \/
-     (contains present h sz = false /\ m_off m = 0 /\ names_ok (m_name m) (consumed msgs) = true /\
+     (early_return present h sz = false /\ m_off m = 0 /\ names_ok (m_name m) (consumed msgs) = true /\
       cs = sumlen (consumed msgs) /\ ((c =? cmp_identity) = true -> cs = sz) /\
-      w_put_clean o = Some (List.length (consumed msgs)) /\
-      put_ok (List.length (consumed msgs)) = true /\ w_stored o = true)).
+      (nil_early_free beh = true ->
+       w_put_clean o = Some (List.length (consumed msgs)) /\
+       put_ok (List.length (consumed msgs)) = true /\ w_stored o = true))).
 Proof.
   cbv zeta. destruct msgs as [|m rest]; [cbn; discriminate|].
   unfold write_handler. rewrite recv_run_first.
   destruct (String.eqb (m_name m) "") eqn:E0; [cbn; discriminate|].
   destruct (parse_write_resource (m_name m)) as [[[h sz] c]|e|s|s] eqn:P; try (cbn; discriminate).
   destruct (sz >? maxsz) eqn:Em; [cbn; discriminate|].
-  destruct (contains present h sz) eqn:C.
+  destruct (early_return present h sz) eqn:C.
   - cbn. intros H. injection H as <-. exists m, rest, h, sz, c.
     split; [reflexivity|]. split; [exact P|]. split; [lia|]. left. repeat split. exact C.
   - destruct (negb (m_off m =? 0)) eqn:Off; [cbn; discriminate|].
@@ -163,18 +180,22 @@ Proof.
       { destruct (consumed_cons m rest) as (t & Et). rewrite Et in *. cbn [tl] in Hn.
         cbn [names_ok forallb]. unfold name_ok at 1. rewrite String.eqb_refl, orb_true_r. exact Hn. }
       intros H. exists m, rest, h, sz, c. split; [reflexivity|]. split; [exact P|]. split; [lia|]. right.
-      destruct beh as [|k e].
+      destruct beh as [|k e|k].
       * destruct (put_ok (List.length (consumed (m :: rest)))) eqn:PO; cbn in H; [|discriminate].
         injection H as <-. cbn. repeat split; try assumption; lia.
       * destruct (k <? List.length (consumed (m :: rest)))%nat; [cbn in H; discriminate|].
         destruct (put_ok (List.length (consumed (m :: rest)))) eqn:PO; cbn in H; [|discriminate].
         injection H as <-. cbn. repeat split; try assumption; lia.
-    + destruct beh as [|k e']; [|destruct (k <? j)%nat]; cbn; discriminate.
+      * assert (CS : cs = cs').
+        { destruct (k <? List.length (consumed (m :: rest)))%nat; [destruct sel|
+            destruct (put_ok (List.length (consumed (m :: rest))))]; cbn in H; congruence. }
+        subst cs'. cbn [nil_early_free]. repeat split; try assumption; try lia; discriminate.
+    + destruct beh as [|k e'|k]; [|destruct (k <? j)%nat|destruct (k <? j)%nat]; cbn; discriminate.
 Qed.
 
 (* ---- the blob already exists: early return, whatever follows in the stream *)
 Lemma existing_blob_early_return sel beh perr maxsz present put_ok m rest h sz c :
-  parse_write_resource (m_name m) = Ok (h, sz, c) -> sz <= maxsz -> contains present h sz = true ->
+  parse_write_resource (m_name m) = Ok (h, sz, c) -> sz <= maxsz -> early_return present h sz = true ->
   write_handler sel beh perr maxsz present put_ok (m :: rest) =
   mkOut (Ok (if c =? cmp_identity then sz else -1)) false None false.
 Proof.
@@ -194,7 +215,7 @@ Lemma handler_rejects sel beh perr maxsz present put_ok msgs :
      ((forall x, parse_write_resource (m_name m) <> Ok x) \/
       exists h sz c, parse_write_resource (m_name m) = Ok (h, sz, c) /\
         (sz > maxsz \/
-         (contains present h sz = false /\
+         (early_return present h sz = false /\
           (m_off m <> 0 \/                                          (* non-zero first write_offset *)
            names_ok (m_name m) (consumed msgs) = false \/            (* resource name changes mid-stream *)
            ((c =? cmp_identity) = true /\ sumlen (consumed msgs) <> sz)))))) ->  (* more or fewer bytes *)
@@ -215,4 +236,32 @@ Proof.
     exfalso. exact (NotOk cs H).
   - destruct (w_stored (write_handler sel beh perr maxsz present put_ok msgs)) eqn:S; [|reflexivity].
     apply handler_stored_only_ok in S as (cs & j & H & _). exfalso. exact (NotOk cs H).
+Qed.
+
+(* ---- Put refuses what it was handed: the call fails and nothing is stored (unless Put returns nil
+   before the end of the stream, see select_dependent_nil_early) *)
+Lemma handler_put_refuses sel beh perr maxsz present put_ok msgs :
+  let o := write_handler sel beh perr maxsz present put_ok msgs in
+  nil_early_free beh = true ->
+  (forall m rest h sz c, msgs = m :: rest -> parse_write_resource (m_name m) = Ok (h, sz, c) ->
+     early_return present h sz = false /\ put_ok (List.length (consumed msgs)) = false) ->
+  (exists e, w_status o = Err e) /\ w_stored o = false.
+Proof.
+  cbv zeta. intros NF Bad.
+  assert (NotOk : forall cs, w_status (write_handler sel beh perr maxsz present put_ok msgs) <> Ok cs).
+  { intros cs HOk. apply handler_ok_inv in HOk as (m & rest & h & sz & c & Em & P & Hsz & Cases).
+    destruct (Bad m rest h sz c Em P) as [NE NP].
+    destruct Cases as [(C & _)|(_ & _ & _ & _ & _ & Put)]; [congruence|].
+    destruct (Put NF) as (_ & PO & _). congruence. }
+  split.
+  - destruct (handler_total sel beh perr maxsz present put_ok msgs) as [(cs & H)|H]; [|exact H].
+    exfalso. exact (NotOk cs H).
+  - destruct (w_stored (write_handler sel beh perr maxsz present put_ok msgs)) eqn:S; [|reflexivity].
+    apply handler_stored_only_ok in S as (cs & j & H & _). exfalso. exact (NotOk cs H).
+Qed.
+
+Lemma empty_digest_no_early_return present : early_return present emptySha256 0 = false.
+Proof.
+  unfold early_return. assert (E : is_empty_digest emptySha256 0 = true) by reflexivity.
+  rewrite E. apply andb_false_r.
 Qed.
